@@ -16,6 +16,16 @@ lockstep over the capability grid
                 lengths at every boundary +-1; conforming client acks
   windows     : both receiving roles with proposed windows {0,1,2,127,128,255}
                 against own {1,2,127}
+  relearn     : the peer's record changes (larger<->smaller max APDU, segmentation
+                support both ways, max-segments appearing) BETWEEN a transmission and
+                its timeout retry; each cut judged against the record known when it
+                is cut; also end-to-end (older I-Am too generous, newer one in time)
+  mixed       : one access point in both roles: learn (every segmentation value) ->
+                serve 1..2 requests from the peer (unsegmented / segmented, SA set /
+                clear) -> long request to that peer: segmented only if the I-Am or a
+                seen SA flag allows it
+  vary        : the scripted receiver raises and lowers its window with every ack
+                (a smaller window is granted with a partial ack inside it)
   loss        : senders with own window {2,8,16,127} whose first segment / first ack
                 is lost 1..2 times (segment timer fires before any SegmentAck), the
                 receiver then grants window 1
@@ -41,7 +51,7 @@ End-to-end: two complete stacks (harness/e2e.py) over the fault-free VLAN for
 capability pairs x lengths; every frame on the wire is measured against the
 RECEIVER's configured capabilities.
 """
-import json, os
+import json, os, random
 from . import core
 from . import tsmlock as T
 
@@ -112,9 +122,9 @@ def check_lengths(fail, outs, peer, limit, what):
 
 class InFlight:
     """a sender's obligation: at every instant the number of DISTINCT segments it has put
-    on the wire beyond the last segment acknowledged to it is <= the window granted in the
-    last SegmentAck it received, and <= 1 before the first ack (retransmissions of the
-    same segment do not count twice)."""
+    on the wire since the last SegmentAck that reached it is <= the window granted in THAT
+    ack, and <= 1 before the first ack (retransmissions of the same segment do not count
+    twice; segments already out when a smaller window arrives are not held against it)."""
 
     def __init__(self, fail, what):
         self.fail, self.what = fail, what
@@ -127,14 +137,15 @@ class InFlight:
         limit = 1 if self.granted is None else self.granted
         self.worst = max(self.worst, len(self.unacked))
         if len(self.unacked) > limit:
-            self.fail("window-in-flight", "%s: %d distinct unacknowledged segments %r on the wire, %s" % (
+            self.fail("window-in-flight", "%s: %d distinct segments %r put on the wire since the last SegmentAck, %s" % (
                 self.what, len(self.unacked), sorted(self.unacked),
-                "no SegmentAck received yet" if self.granted is None else "the receiver granted window %d" % self.granted))
+                "none received yet (only the first segment may be out)" if self.granted is None
+                else "which granted window %d" % self.granted))
 
     def acked(self, seq, win):
         """a SegmentAck (ack or nak) for `seq` with window `win` reached the sender"""
         self.granted = win
-        self.unacked = {x for x in self.unacked if x != seq and ((x - seq - 1) % 256) < 128}
+        self.unacked = set()
 
     def feed(self, outs, ptype, seq_at):
         for o in outs:
@@ -142,97 +153,89 @@ class InFlight:
                 self.sent(o["h"][seq_at])
 
 
-# ---------------------------------------------------------------- client role
+def play_acks(L, flight, outs, ptype, rng, win=None, vary=False):
+    """the harness plays the RECEIVER of a segmented transfer the access point is sending
+    (ptype 0: we are the server of its request; 3: the client of its response): it
+    acknowledges every burst until the final segment was seen.  win: fixed window;
+    vary: the window changes with every ack (raised and lowered).  A window SMALLER than
+    the burst is granted with a partial (negative) ack inside the new window - the only way
+    the code accepts it (see notes/C12.md, 'shrinking window').  Returns every output."""
+    seq_at, id_at, srv = (7, 6, 1) if ptype == 0 else (4, 3, 0)
+    got = []
+    guard = 0
+    while guard < 600:
+        guard += 1
+        segs = [o for o in outs if o["o"] == "send" and o["h"][0] == ptype and o["h"][1]]
+        if not segs:
+            break
+        first, last = segs[0]["h"], segs[-1]["h"]
+        w = win if not vary else rng.choice([1, 1, 2, 3, 4, 8, 16])
+        burst = len(set(f["h"][seq_at] for f in segs))
+        if vary and w < burst and last[2]:
+            # lower the window: acknowledge only part of the burst, inside the new window
+            j = rng.randrange(w)
+            a = {"t": 4, "srv": srv, "nak": 1, "id": first[id_at], "seq": (first[seq_at] + j) % 256, "win": w}
+            final = False
+        else:
+            a = {"t": 4, "srv": srv, "id": last[id_at], "seq": last[seq_at], "win": w}
+            final = not last[2]
+        flight.acked(a["seq"], w)
+        outs = L.frame(0, a)["out"]
+        flight.feed(outs, ptype, seq_at)
+        got += outs
+        if final:
+            break
+    return got
 
-def client_scenario(ctx, label, cfg, di, n, rng, loss=0):
-    """request of n octets toward peer 0; conforming server acks until all is out.
-    loss = k: the first segment (or the server's first ack) is lost k times, i.e. the
-    segment timer fires k times before any SegmentAck arrives."""
-    try:
-        L = T.Lock(cfg, [[0, di]] if di else [], strict_learn=True)
-    except T.LearnError as e:
-        ctx.fail("iam-not-learned", {"label": label, "params": {"role": "client", "cfg": cfg, "di": di, "n": n}},
-                 "the limits a peer announces in its I-Am are never used for requests: %s" % e)
-        L = T.Lock(cfg, [[0, di]] if di else [])
-    L.label = label
-    fail = Fail(ctx, L, label, {"role": "client", "cfg": cfg, "di": di, "n": n, "loss": loss})
-    r = L.request(0, 200, pattern(n))
-    outs = list(r["out"])
-    flight = InFlight(fail, "request")
-    flight.feed(outs, 0, 7)
-    lost_out = []
-    for _ in range(loss):
-        if not L.smap.clientTransactions or L.smap.clientTransactions[0].state != 1:
-            break
-        rr = L.fire_next()
-        if rr is None:
-            break
-        more = rr[1]["out"]
-        flight.feed(more, 0, 7)
-        lost_out += more
-        if data_frames(more, 0):
-            outs = more
-    # what the peer announced (or, without a record, what the client may assume: its own)
+
+def client_expect(cfg, di, n):
+    """what C12 demands of a request of n octets toward a peer with record `di` (None: no
+    record, the client may assume its own maximum) -> (expectation, limit, count, peer_max)"""
     if di and di["maxApdu"] is not None:
         limit = di["maxApdu"] if di["maxNpdu"] is None else min(di["maxApdu"], di["maxNpdu"])
     else:
         limit = cfg["maxApdu"]
     fits = n + 4 <= limit
     size = limit - 6
-    count = 1 if fits else -(-n // size)
+    count = 1 if fits else (-(-n // size) if size > 0 else 0)
     may_tx = cfg["seg"] in (1, 3)
     peer_rx = (di is None) or di["seg"] in (2, 3)
     peer_max = di["maxSegs"] if di else None
     if fits:
         expect = "unsegmented"
+    elif size <= 0:
+        expect = ("abort", 11)
     elif not may_tx or not peer_rx:
         expect = ("abort", 4)
     elif peer_max and count > peer_max:
         expect = ("abort", 11)
     else:
         expect = "segmented"
-    all_out = list(r["out"]) + lost_out
-    if expect == "segmented":
-        # play the server: ack each window until the final segment was seen
-        guard = 0
-        win = 1 if loss else rng.choice([1, 2, 3, cfg["window"]])
-        while guard < 400:
-            guard += 1
-            segs = data_frames(outs, 0)
-            if not segs:
-                break
-            last = segs[-1]["h"]
-            if not last[1]:
-                break
-            flight.acked(last[7], win)
-            if not last[2]:          # more-follows clear: final ack
-                r = L.frame(0, {"t": 4, "srv": 1, "id": last[6], "seq": last[7], "win": win})
-                all_out += r["out"]
-                flight.feed(r["out"], 0, 7)
-                break
-            r = L.frame(0, {"t": 4, "srv": 1, "id": last[6], "seq": last[7], "win": win})
-            outs = r["out"]
-            flight.feed(outs, 0, 7)
-            all_out += outs
-    # ---- oracle
-    check_lengths(fail, all_out, 0, limit, "request")
+    return expect, limit, count, peer_max
+
+
+def judge_client_cut(fail, cfg, n, exp, all_out, gone, what="request"):
+    """the oracle for one (re)cut of a client request: `all_out` = everything emitted from
+    the cut until the request was out; gone = no client transaction is left"""
+    expect, limit, count, peer_max = exp
+    check_lengths(fail, all_out, 0, limit, what)
     reqs = data_frames(all_out, 0)
     confs = [o for o in all_out if o["o"] == "conf"]
     if expect == "unsegmented":
         if len(reqs) != 1 or reqs[0]["h"][1] or confs:
-            fail("unsegmented", "a request that fits was not sent as one unsegmented APDU: %r" % (all_out,))
+            fail("unsegmented", "%s: a request that fits was not sent as one unsegmented APDU: %r" % (what, all_out))
     elif expect == "segmented" and not reqs:
-        fail("segment-count", "a request that must be segmented produced no request frame: %r" % (all_out,))
+        fail("segment-count", "%s: a request that must be segmented produced no request frame: %r" % (what, all_out))
     elif expect == "segmented":
         if any(not f["h"][1] for f in reqs):
-            fail("segmentation", "unsegmented frame in a segmented request")
+            fail("segmentation", "%s: unsegmented frame in a segmented request" % what)
         seqs = [f["h"][7] for f in reqs if f["h"][1]]
         total = len(set(seqs)) if count <= 256 else len(reqs)
         if total != count or reqs[-1]["h"][2]:
-            fail("segment-count", "expected %d segments, saw %d distinct (last more-follows=%s)" % (
-                count, total, reqs[-1]["h"][2]))
+            fail("segment-count", "%s: expected %d segments, saw %d distinct (last more-follows=%s)" % (
+                what, count, total, reqs[-1]["h"][2]))
         if peer_max and total > peer_max:
-            fail("segments-bound", "%d segments toward a peer accepting %d" % (total, peer_max))
+            fail("segments-bound", "%s: %d segments toward a peer accepting %d" % (what, total, peer_max))
         segd = [f for f in reqs if f["h"][1]]
         if segd and (segd[0]["h"][8] != cfg["window"] or not (1 <= segd[0]["h"][8] <= 127)):
             fail("window-range", "first segment proposes window %r (own %r)" % (segd[0]["h"][8], cfg["window"]))
@@ -242,20 +245,152 @@ def client_scenario(ctx, label, cfg, di, n, rng, loss=0):
     else:
         reason = expect[1]
         if reqs or len(confs) != 1 or confs[0]["h"][0] != 7 or confs[0]["h"][3] != reason \
-                or len(all_out) != 1 or L.smap.clientTransactions:
-            fail("cannot-send", "expected only an abort %d to the application, got %r" % (reason, all_out))
-    ctx.count("client-class", ("client", expect if isinstance(expect, str) else "abort%d" % expect[1]))
+                or len(all_out) != 1 or not gone:
+            fail("cannot-send", "%s: expected only an abort %d to the application, got %r" % (what, reason, all_out))
+
+
+# ---------------------------------------------------------------- client role
+
+def client_scenario(ctx, label, cfg, di, n, rng, loss=0, vary=False, rseed=None):
+    """request of n octets toward peer 0; conforming server acks until all is out.
+    loss = k: the first segment (or the server's first ack) is lost k times, i.e. the
+    segment timer fires k times before any SegmentAck arrives.  vary: the server changes
+    the window it grants with every ack."""
+    if rseed is None:
+        rseed = rng.getrandbits(48)
+    rng = random.Random(rseed)      # every random choice of the scenario derives from rseed (replayable)
+    try:
+        L = T.Lock(cfg, [[0, di]] if di else [], strict_learn=True)
+    except T.LearnError as e:
+        ctx.fail("iam-not-learned", {"label": label, "params": {"role": "client", "cfg": cfg, "di": di, "n": n}},
+                 "the limits a peer announces in its I-Am are never used for requests: %s" % e)
+        L = T.Lock(cfg, [[0, di]] if di else [])
+    L.label = label
+    fail = Fail(ctx, L, label, {"role": "client", "cfg": cfg, "di": di, "n": n, "loss": loss, "vary": vary, "rseed": rseed})
+    r = L.request(0, 200, pattern(n))
+    outs = list(r["out"])
+    flight = InFlight(fail, "request")
+    flight.feed(outs, 0, 7)
+    all_out = list(outs)
+    for _ in range(loss):
+        if not L.smap.clientTransactions or L.smap.clientTransactions[0].state != 1:
+            break
+        rr = L.fire_next()
+        if rr is None:
+            break
+        more = rr[1]["out"]
+        flight.feed(more, 0, 7)
+        all_out += more
+        if data_frames(more, 0):
+            outs = more
+    exp = client_expect(cfg, di, n)
+    if exp[0] == "segmented":
+        all_out += play_acks(L, flight, outs, 0, rng, win=1 if loss else rng.choice([1, 2, 3, cfg["window"]]), vary=vary)
+    judge_client_cut(fail, cfg, n, exp, all_out, not L.smap.clientTransactions)
+    expect = exp[0]
+    ctx.count("client-class", ("client", expect if isinstance(expect, str) else "abort%d" % expect[1], bool(vary)))
+    return L
+
+
+def relearn_scenario(ctx, label, cfg, d1, d2, n, rng, rseed=None):
+    """the peer's record CHANGES between a transmission and its timeout retry (a newer
+    I-Am, an edited record): request with record d1, nobody answers, `learn` d2, the APDU
+    timer fires.  Every frame is judged against the capabilities known WHEN IT IS CUT:
+    the first attempt against d1, the retry against d2."""
+    if rseed is None:
+        rseed = rng.getrandbits(48)
+    rng = random.Random(rseed)      # every random choice of the scenario derives from rseed (replayable)
+    L = T.Lock(cfg, [[0, d1]])
+    L.label = label
+    fail = Fail(ctx, L, label, {"role": "relearn", "cfg": cfg, "d1": d1, "d2": d2, "n": n, "rseed": rseed})
+    r = L.request(0, 200, pattern(n))
+    outs = list(r["out"])
+    flight = InFlight(fail, "request")
+    flight.feed(outs, 0, 7)
+    e1 = client_expect(cfg, d1, n)
+    all1 = list(outs)
+    if e1[0] == "segmented":
+        all1 += play_acks(L, flight, outs, 0, rng, win=rng.choice([1, 2, 4]))
+    judge_client_cut(fail, cfg, n, e1, all1, not L.smap.clientTransactions, "first attempt")
+    if not L.smap.clientTransactions or L.smap.clientTransactions[0].state != 2:
+        ctx.count("relearn-class", ("no-retry", e1[0] if isinstance(e1[0], str) else "abort"))
+        return L
+    L.learn(0, d2)
+    rr = L.fire_next()                       # the APDU timeout: the request is cut again
+    outs2 = list(rr[1]["out"]) if rr else []
+    flight2 = InFlight(fail, "retry")
+    flight2.feed(outs2, 0, 7)
+    e2 = client_expect(cfg, d2, n)
+    all2 = list(outs2)
+    if e2[0] == "segmented":
+        all2 += play_acks(L, flight2, outs2, 0, rng, win=rng.choice([1, 2, 4]))
+    judge_client_cut(fail, cfg, n, e2, all2, not L.smap.clientTransactions, "retry after the record changed")
+    cls = lambda e: e[0] if isinstance(e[0], str) else "abort%d" % e[0][1]
+    ctx.count("relearn-class", (cls(e1), cls(e2), d1["maxApdu"] > d2["maxApdu"], d1["seg"] == d2["seg"]))
+    return L
+
+
+SHAPES = [("unseg", 0), ("unseg", 1), ("seg", 0), ("seg", 1)]
+
+
+def mixed_role_scenario(ctx, label, cfg, s0, shapes, rng, rseed=None):
+    """one access point in both roles: it learns (I-Am) that peer 0 supports segmentation
+    value s0, SERVES one or two requests from that peer (unsegmented / segmented, SA flag
+    set / clear), and later sends a long request of its own to that peer.
+    Oracle: the request is segmented only toward a peer whose ANNOUNCED capability (I-Am)
+    or DEMONSTRATED receive capability (it sent a request with segmented-response-accepted)
+    allows it; otherwise the application gets abort segmentationNotSupported."""
+    if rseed is None:
+        rseed = rng.getrandbits(48)
+    rng = random.Random(rseed)      # every random choice of the scenario derives from rseed (replayable)
+    m = 206
+    L = T.Lock(cfg, [[0, {"maxApdu": m, "seg": s0, "maxSegs": None, "maxNpdu": None}]])
+    L.label = label
+    fail = Fail(ctx, L, label, {"role": "mixed", "cfg": cfg, "s0": s0, "shapes": shapes, "rseed": rseed})
+    can_rx = s0 in (2, 3)
+    inv = 30
+    for shape, sa in shapes:
+        inv += 1
+        hdr = {"t": 0, "id": inv, "svc": 200, "maxResp": 2, "maxSegs": 3, "sa": sa}
+        if shape == "unseg":
+            L.frame(0, dict(hdr, hex="0102"))
+        else:
+            L.frame(0, dict(hdr, seg=1, mor=1, seq=0, win=2, hex="0102"))
+            L.frame(0, dict(hdr, seg=1, mor=0, seq=1, win=2, hex="0304"))
+        L.response(0, {"t": 2, "id": inv, "svc": 200})
+        if sa:
+            can_rx = True            # it asked for a segmented response: it can receive segments
+    if L.smap.serverTransactions:
+        fail("mixed", "a served request left a transaction: %r" % (L.snapshot()["sv"],))
+    n = 3 * (m - 6) + 5
+    r = L.request(0, 200, pattern(n))
+    outs = list(r["out"])
+    flight = InFlight(fail, "request")
+    flight.feed(outs, 0, 7)
+    reqs = data_frames(outs, 0)
+    confs = [o for o in outs if o["o"] == "conf"]
+    if can_rx and cfg["seg"] in (1, 3):
+        outs += play_acks(L, flight, outs, 0, rng, win=2)
+        judge_client_cut(fail, cfg, n, ("segmented", m, 4, None), outs, not L.smap.clientTransactions, "request after serving")
+    else:
+        if reqs or len(confs) != 1 or confs[0]["h"][0] != 7 or confs[0]["h"][3] != 4 or L.smap.clientTransactions:
+            fail("segmentation-allowed", "a request was cut into segments toward a peer whose I-Am says %s and which never "
+                 "set segmented-response-accepted (served before: %r): %r" % (T.SEG_NAMES[s0], shapes, outs[:2]))
+    ctx.count("mixed-class", (s0, tuple(shapes), can_rx))
     return L
 
 
 # ---------------------------------------------------------------- server role
 
-def server_scenario(ctx, label, cfg, di, hdr, n, rng, loss=0):
+def server_scenario(ctx, label, cfg, di, hdr, n, rng, loss=0, vary=False, rseed=None):
     """request with capability header `hdr` from peer 0; application answers with n octets;
     loss = k: the first response segment (or the client's first ack) is lost k times"""
+    if rseed is None:
+        rseed = rng.getrandbits(48)
+    rng = random.Random(rseed)      # every random choice of the scenario derives from rseed (replayable)
     L = T.Lock(cfg, [])
     L.label = label
-    fail = Fail(ctx, L, label, {"role": "server", "cfg": cfg, "di": di, "hdr": hdr, "n": n, "loss": loss})
+    fail = Fail(ctx, L, label, {"role": "server", "cfg": cfg, "di": di, "hdr": hdr, "n": n, "loss": loss, "vary": vary, "rseed": rseed})
     if di:
         # the application learns about the peer (I-Am) BEFORE the request arrives: its
         # maximum may be larger or smaller than what the request header will announce
@@ -310,23 +445,7 @@ def server_scenario(ctx, label, cfg, di, hdr, n, rng, loss=0):
     else:
         expect = "segmented"
     if expect == "segmented":
-        guard = 0
-        win = 1 if loss else rng.choice([1, 2, 3, cfg["window"]])
-        while guard < 400:
-            guard += 1
-            segs = data_frames(outs, 3)
-            if not segs:
-                break
-            last = segs[-1]["h"]
-            if not last[1]:
-                break
-            flight.acked(last[4], win)
-            r = L.frame(0, {"t": 4, "srv": 0, "id": 7, "seq": last[4], "win": win})
-            outs = r["out"]
-            flight.feed(outs, 3, 4)
-            all_out += outs
-            if not last[2]:
-                break
+        all_out += play_acks(L, flight, outs, 3, rng, win=1 if loss else rng.choice([1, 2, 3, cfg["window"]]), vary=vary)
     acks = data_frames(all_out, 3)
     check_lengths(fail, all_out, 0, announced, "response")
     aborts = [o for o in all_out if o["o"] == "send" and o["h"][0] == 7]
@@ -438,6 +557,40 @@ def reception_scenario(ctx, label, own, prop, direction, pos, kind):
     return L
 
 
+def relearn_grid():
+    """(m1, seg1) -> (m2, seg2, maxsegs2): the record changes between attempt and retry"""
+    out = []
+    for m1 in APDUS:
+        for m2 in APDUS:
+            if m1 == m2:
+                continue
+            for (g1, g2) in ((3, 3), (3, 0), (0, 3), (3, 1), (2, 3)):
+                for ms2 in (None, 2):
+                    out.append(("L", m1, m2, g1, g2, ms2))
+    return out
+
+
+def mixed_grid():
+    out = []
+    for s0 in range(4):
+        for a in SHAPES:
+            out.append(("m", s0, [a]))
+            for b in SHAPES:
+                out.append(("m", s0, [a, b]))
+    return out
+
+
+def vary_grid():
+    out = []
+    for own in (1, 4, 16, 127):
+        for role in ("client", "server"):
+            for m in (50, 128):
+                for nseg in (7, 19, 40):
+                    for rep in range(2):
+                        out.append(("v", own, role, m, nseg, rep))
+    return out
+
+
 def loss_grid():
     """senders whose own window is much larger than what the receiver grants (1), with the
     first segment / the first ack lost 1..2 times"""
@@ -544,6 +697,29 @@ def shard(ctx, spec):
                     if n > 70000:
                         continue
                     locks.append(server_scenario(ctx, "server-%d-%d-%d" % (idx, v, n), dict(cfg), di, hdr, n, rng))
+        elif it[0] == "L":
+            _L, m1, m2, g1, g2, ms2 = it
+            cfg.update(seg=rng.choice([3, 3, 3, 1, 0]), window=rng.choice(WINDOWS), maxApdu=1476, maxSegs=16,
+                       retries=rng.choice([1, 3]))
+            d1 = {"maxApdu": m1, "seg": g1, "maxSegs": None, "maxNpdu": None}
+            d2 = {"maxApdu": m2, "seg": g2, "maxSegs": ms2, "maxNpdu": None}
+            lens = {min(m1, m2) - 4, min(m1, m2) - 3, max(m1, m2) - 4, max(m1, m2) - 3,
+                    2 * (min(m1, m2) - 6), 2 * (min(m1, m2) - 6) + 1, (m1 + m2) // 2}
+            for n in sorted(x for x in lens if 0 <= x <= 6000):
+                locks.append(relearn_scenario(ctx, "relearn-%d-%d" % (idx, n), dict(cfg), d1, d2, n, rng))
+        elif it[0] == "m":
+            _m, s0, shapes = it
+            cfg.update(seg=3, window=2, maxApdu=1024, maxSegs=16)
+            locks.append(mixed_role_scenario(ctx, "mixed-%d" % idx, dict(cfg), s0, [tuple(x) for x in shapes], rng))
+        elif it[0] == "v":
+            _v, own, role, m, nseg, rep = it
+            cfg.update(seg=3, window=own, maxSegs=64, maxApdu=1024)
+            if role == "client":
+                di = {"maxApdu": m, "seg": 3, "maxSegs": None, "maxNpdu": None}
+                locks.append(client_scenario(ctx, "vary-c-%d" % idx, dict(cfg), di, (m - 6) * nseg - 3, rng, vary=True))
+            else:
+                hdr = {"maxResp": {50: 0, 128: 1}[m], "maxSegs": 7, "sa": 1}
+                locks.append(server_scenario(ctx, "vary-s-%d" % idx, dict(cfg), None, hdr, (m - 5) * nseg - 3, rng, vary=True))
         elif it[0] == "l":
             _l, own, role, loss, m, nseg = it
             cfg.update(seg=3, window=own, maxSegs=64, maxApdu=1024, retries=3)
@@ -636,6 +812,64 @@ def e2e_shard(ctx, items):
                           outcome, len(res["frames"]) > 2))
 
 
+def e2e_relearn_shard(ctx, items):
+    """end-to-end: stack A believes (older I-Am) that B accepts `told` octets, sends a
+    request that fits that, the frame is lost; before A's APDU timeout a newer I-Am teaches
+    it B's real, smaller maximum.  Every request frame A puts on the wire AFTER that instant
+    must respect B's real capabilities."""
+    from . import e2e as E
+    from bacpypes.task import FunctionTask
+    for sc in items:
+        told, real, clen = sc["told"], sc["real"], sc["clen"]
+        net = E.E2ENet(policy=lambda i, pdu: "drop" if i == 0 else "ok")
+        a = net.add_stack(10, max_apdu=1476, seg="segmentedBoth", max_segs=64, seg_timeout=1500, window=sc.get("window", 4))
+        b = net.add_stack(20, max_apdu=real, seg=sc.get("bseg", "segmentedBoth"), max_segs=64, seg_timeout=1500)
+        info = a.know(b)
+        if info is None:
+            ctx.fail("iam-not-learned", sc, "the device information cache did not store the I-Am")
+            continue
+        info.maxApduLengthAccepted = told           # what the OLDER I-Am said
+        info.segmentationSupported = "segmentedBoth"
+        b.response_payload = b"ok"
+        t0 = net.vt.now
+        a.send_cpt(b, bytes((i * 7) & 255 for i in range(clen)))
+        when = {"t": None}
+
+        def newer_iam():
+            a.know(b)                                # the newer I-Am: B's real capabilities
+            when["t"] = net.vt.now
+        FunctionTask(newer_iam).install_task(delta=1.0)
+        net.run()
+        bad = []
+        for f in net.lan.log:
+            h = E.decode_apdu_header(f[3])
+            if not h or h.get("type") != 0 or str(f[1]) != "10":
+                continue
+            t = f[5] if len(f) > 5 and f[5] is not None else t0
+            if when["t"] is not None and t >= when["t"]:
+                if h["len"] > real:
+                    bad.append(("apdu-too-long", "request APDU of %d octets at t=%.1f, %.1f s after a newer I-Am said %d" % (
+                        h["len"], t - t0, t - when["t"], real)))
+                if h.get("seg") and sc.get("bseg", "segmentedBoth") not in ("segmentedBoth", "segmentedReceive"):
+                    bad.append(("segmented-to-nonreceiver", "segment sent after a newer I-Am said %s" % sc["bseg"]))
+        outcome = a.confirmations[0][1] if a.confirmations else "none"
+        if not bad and sc.get("bseg", "segmentedBoth") == "segmentedBoth" and outcome != "ack":
+            bad.append(("relearn-outcome", "the retry after the newer I-Am did not succeed: %r" % (a.confirmations,)))
+        for kind, what in bad[:3]:
+            ctx.fail("e2e-" + kind, dict(sc, e2e="relearn"), what)
+        ctx.count("e2e-relearn", (told, real, outcome))
+
+
+def e2e_relearn_cases():
+    out = []
+    for told, real in ((1024, 206), (1476, 50), (480, 128), (1024, 480), (206, 128)):
+        for clen in (real + 40, told - 40, (told + real) // 2):
+            out.append({"told": told, "real": real, "clen": clen})
+    out.append({"told": 1024, "real": 206, "clen": 600, "bseg": "noSegmentation"})
+    out.append({"told": 1024, "real": 206, "clen": 600, "bseg": "segmentedTransmit"})
+    return out
+
+
 def e2e_cases(ctx, rng):
     cases = []
     pairs = [(a, b) for a in APDUS for b in APDUS]
@@ -682,9 +916,13 @@ def run_case(ctx, case, label):
     p = case["params"]
     rng = ctx.sub_rng("c12/replay")
     if p["role"] == "client":
-        L = client_scenario(ctx, label, p["cfg"], p["di"], p["n"], rng, loss=p.get("loss", 0))
+        L = client_scenario(ctx, label, p["cfg"], p["di"], p["n"], rng, loss=p.get("loss", 0), vary=p.get("vary", False), rseed=p.get("rseed"))
+    elif p["role"] == "relearn":
+        L = relearn_scenario(ctx, label, p["cfg"], p["d1"], p["d2"], p["n"], rng, rseed=p.get("rseed"))
+    elif p["role"] == "mixed":
+        L = mixed_role_scenario(ctx, label, p["cfg"], p["s0"], [tuple(x) for x in p["shapes"]], rng, rseed=p.get("rseed"))
     elif p["role"] == "server":
-        L = server_scenario(ctx, label, p["cfg"], p["di"], p["hdr"], p["n"], rng, loss=p.get("loss", 0))
+        L = server_scenario(ctx, label, p["cfg"], p["di"], p["hdr"], p["n"], rng, loss=p.get("loss", 0), vary=p.get("vary", False), rseed=p.get("rseed"))
     elif p["role"] == "reception":
         L = reception_scenario(ctx, label, p["own"], p["proposed"], p["direction"], p["pos"], p["kind"])
     else:
@@ -714,6 +952,14 @@ def run(ctx):
                 specs.append((kind, part))
     specs.append(("window", wins))
     specs.append(("loss", list(enumerate(loss_grid()))))
+    specs.append(("vary", list(enumerate(vary_grid()))))
+    specs.append(("mixed", list(enumerate(mixed_grid()))))
+    rl = list(enumerate(relearn_grid()))
+    if ctx.quick:
+        rl = [x for x in rl if rng.randrange(4) == 0]
+    for i in range(6):
+        if rl[i::6]:
+            specs.append(("relearn", rl[i::6]))
     rg = list(enumerate(reception_grid()))
     for i in range(4):
         specs.append(("reception", rg[i::4]))
@@ -721,6 +967,8 @@ def run(ctx):
     cases = e2e_cases(ctx, ctx.sub_rng("c12/e2e"))
     chunks = [cases[i::16] for i in range(16)]
     core.run_shards(ctx, "harness.c12", "e2e_shard", [c for c in chunks if c])
+    rc = e2e_relearn_cases()
+    core.run_shards(ctx, "harness.c12", "e2e_relearn_shard", [rc[i::4] for i in range(4)])
 
 
 def search(ctx):
@@ -738,6 +986,9 @@ def replay(ctx, payload):
     case = rec.get("case")
     if isinstance(case, dict) and "params" in case:
         run_case(ctx, case, "replay")
+        return
+    if isinstance(case, dict) and case.get("e2e") == "relearn":
+        e2e_relearn_shard(ctx, [case])
         return
     if isinstance(case, dict) and "clen" in case:
         e2e_shard(ctx, [case])
